@@ -33,6 +33,24 @@ The `ArgSpec` holds a dictionary from strings to lists of parameters.
 """
 
 
+_STRING_PARAMETER_ESCAPES = {
+    "\\": "\\\\",
+    '"': '\\"',
+    "\n": "\\n",
+    "\t": "\\t",
+    "\r": "\\0D",
+    "\f": "\\0C",
+    "\v": "\\0B",
+}
+
+
+def _escape_string_parameter(arg: str) -> str:
+    """
+    Escapes the characters that cannot appear verbatim in a quoted parameter value.
+    """
+    return "".join(_STRING_PARAMETER_ESCAPES.get(c, c) for c in arg)
+
+
 @dataclass(eq=True, frozen=True)
 class ArgSpec:
     """
@@ -63,7 +81,7 @@ class ArgSpec:
             case bool():
                 return str(arg).lower()
             case str():
-                return f'"{arg}"'
+                return f'"{_escape_string_parameter(arg)}"'
             case int():
                 return str(arg)
             case float():
@@ -293,7 +311,10 @@ _lexer_rules: list[tuple[re.Pattern[str], SpecTokenKind]] = [
     (re.compile(r"[0-9]+[A-Za-z_-]+[A-Za-z0-9_-]*"), SpecTokenKind.IDENT),
     (re.compile(r"[-+]?[0-9]+(\.[0-9]*([eE][-+]?[0-9]+)?)?"), SpecTokenKind.NUMBER),
     (re.compile(r"[A-Za-z0-9_-]+"), SpecTokenKind.IDENT),
-    (re.compile(r'"(\\[nfvtr"\\]|[^\n\f\v\r"\\])*"'), SpecTokenKind.STRING_LIT),
+    (
+        re.compile(r'"(\\[nfvtr"\\]|\\[0-9a-fA-F]{2}|[^\n\f\v\r"\\])*"'),
+        SpecTokenKind.STRING_LIT,
+    ),
     (re.compile(r'\[(\\[nfvtr"\\]|[^\n\f\v\r\]\\])*\]'), SpecTokenKind.MLIR_PIPELINE),
     (re.compile(r"\{"), SpecTokenKind.L_BRACE),
     (re.compile(r"}"), SpecTokenKind.R_BRACE),
